@@ -206,9 +206,11 @@ def validate_traces(lines, workdir, name, shards=None, timeout=1800):
                               env={"TRACE": fn}, timeout=timeout)
         tags = parse_tagged(out)
         if rc != 0 or "VIOL" not in tags or "STAT" not in tags:
-            keep = fn + ".tlcout"
+            os.makedirs(os.path.join(WORK, "keep"), exist_ok=True)
+            keep = os.path.join(WORK, "keep", os.path.basename(fn) + ".tlcout")
             with open(keep, "w") as f:
                 f.write(out)
+            shutil.copy(fn, os.path.join(WORK, "keep", os.path.basename(fn)))
             raise ToolError("trace validation failed to run to completion on %s (rc=%d); TLC output kept at %s\n%s"
                             % (fn, rc, keep, out[-3000:]))
         gen, dist = parse_states(out)
